@@ -63,6 +63,7 @@ def plan(tier, seed):
     specs += [{"mode": "shipped", "which": w, "rseed": seed * 1000 + 100 + k, "reps": 1 if tier == "quick" else 30}
               for k, w in enumerate(["mex", "nimitz"])]
     specs[-1]["optimize"] = True          # python -O: assert statements are compiled away
+    specs.append({"mode": "peltool", "n": 14 if tier == "quick" else 250, "rseed": seed * 1000 + 400})
     specs.append({"mode": "layout", "n": 25 if tier == "quick" else 300, "rseed": seed * 1000 + 200})
     return specs
 
@@ -70,7 +71,7 @@ def plan(tier, seed):
 def minimums(tier):
     return {"hlog.calls_checked": 5000, "hlog.field_lines_checked": 20000, "fields.calls_checked": 5000,
             "workload.single_byte_probes": 2000, "workload.lengths": 3000,
-            "plugin.hlog_checked": 100, "layout.compared": 40, "layout.decoded_in_plain_tree": 40, "plugin.synthetic_table_checked": 500, "workload.whole_log_areas": 500}
+            "plugin.hlog_checked": 100, "peltool.io_section_runs": 30, "peltool.io_sections_compared": 30, "layout.compared": 40, "layout.decoded_in_plain_tree": 40, "plugin.synthetic_table_checked": 500, "workload.whole_log_areas": 500}
 
 
 def drive(ctx, hlog, rng, path, fields, tag):
@@ -107,6 +108,12 @@ def run(spec, ctx):
     import io_drawer.hlog as hlog
     rng = random.Random(spec["rseed"])
     root = harness.scratch_root()
+    if spec["mode"] == "peltool":
+        # the section inside a PEL, decoded by peltool in a process of its own (see vf/iocli.py)
+        from vf import iocli
+        from vf import pelmodel as pm
+        iocli.run(ctx, ID, rng, pm.Uniq(spec["shard"] * 10_000_000), 72, spec["n"])
+        return
     if spec["mode"] == "synthetic":
         for i in range(spec["n"]):
             fields = iogen.gen_fields(rng, rng.choice([0, 1, 2, 3, 5, 8, 12, 20, 38]) if i % 6 else rng.choice([80, 120]))
